@@ -5,6 +5,7 @@ import (
 	"go/types"
 	"math"
 	"os"
+	"regexp"
 	"sort"
 	"strings"
 	"sync"
@@ -218,6 +219,7 @@ type interpreter struct {
 	powPoints       [][3]*Term
 	opaqueStrings   int
 	prints          int
+	nativeRegexps   map[*value]*regexp.Regexp
 	stdout          strings.Builder // what the code under test printed on this path
 	stdoutOpaque    int
 	lastCaught      string
